@@ -42,6 +42,8 @@ def grid_digits(tol, rng=None):
         return None
     e = -math.log10(tol)
     nd = int(math.floor(e + 1e-9))
+    if tol >= 1:
+        return nd  # tolerances above 1: tens / hundreds grid (negative number of digits)
     if abs(e - round(e)) < 1e-9 and rng is not None and rng.random() < 0.6:
         return nd  # full resolution for exact powers of ten
     return max(nd - 1, 0)
@@ -74,6 +76,8 @@ def gen_config(rng, *, fronts=(("interval", 6), ("reverse", 1.5), ("tree", 1.5),
     tol = 0.0
     if hw or rng.random() < 0.2:
         tol = rng.choice([1e-2, 1e-3, 1e-3, 1e-4, 1e-6, 1e-8, 5e-4])
+        if t1 - t0 >= 1000 and rng.random() < 0.5:
+            tol = rng.choice([5.0, 2.0, 0.5, 30.0])  # coarse tolerances (incl. > 1) on long intervals
     cache = _pick(rng, [(0, 1), (1, 1.5), (2, 1.5), (3, 1), (5, 1), (10, 0.5), (45, 3), (100, 0.5), (1000, 0.5),
                         (None, 1.5)])
     dt = None
@@ -389,6 +393,10 @@ def gen_ops(rng, cfg, dom, n_target, mix=None):
             if y <= dom[1]:
                 ops.append(_q(x, y, U, A, tag="ulp"))
         elif k == "requery":
+            pts = [o for o in ops if o["op"] == "point"]
+            if pts and rng.random() < 0.25:
+                ops.append(dict(rng.choice(pts)))  # the same point evaluation again (non-monotone order)
+                continue
             prev = [o for o in ops if o["op"] == "q"]
             if not prev:
                 continue
